@@ -682,6 +682,7 @@ join_matches = query_context.join_map.get_rhs(__RBQLMP__lhs_join_var_expression)
 for join_match in join_matches:
     bNR, bNF, record_b = join_match
     star_fields = record_a + record_b
+    query_context.unnest_list = None # Each (A, B) pair evaluates the select expression (and its UNNEST) again
     __CODE__
     if stop_flag:
         break
